@@ -107,8 +107,10 @@ def compare_case(cs, db):
         if not fn:
             bad.append(("destructor of " + C, 1, 0))
             continue
-        chk("destructor roles of " + C, (True, bool(e["virtual"]), C + "::~" + cs.cname(c)),
-            (bool(fn["is_destructor"]), bool(fn["is_virtual"]), fn["scoped_name"]))
+        O = cs.cscoped(e["owner"])        # the class whose destructor function is recorded (inherited virtual destructor)
+        virt = bool(fn["is_virtual"]) if e["vclaim"] else bool(e["virtual"])
+        chk("destructor roles of " + C, (True, bool(e["virtual"]), O + "::~" + cs.cname(e["owner"]), bool(e["inherited"])),
+            (bool(fn["is_destructor"]), virt, fn["scoped_name"], bool(t["destructor_is_inherited"])))
     for k in d["classes"]:
         c = k["c"]
         C = cs.cscoped(c)
@@ -375,6 +377,8 @@ def run_check(ctx):
         "up/down-cast availability follows the rule documented in define_struct_type (a cast function exists when the base "
         "sub-object may sit at a different address: virtual base, not the first base, more than one base, or a polymorphic "
         "class with a non-polymorphic base; no downcast through a virtual base)",
+        "a destructor overriding the virtual destructor of the only public non-virtual base is recorded as the inherited "
+        "destructor function (documented in define_method / define_struct_type)",
         "comment reference: consecutive // lines form one block, every /* */ is its own block, a line without a comment "
         "ends a block, a block attaches to the declaration that starts on its last line or on the next line and to no other; "
         "trailing comments after a declaration on the same line are outside the claimed domain, except in enumerator lists "
